@@ -154,56 +154,56 @@ void h_readInfinity(void) { char* line; int n, off; int* off_out; havoc_ghosts()
 
 /* ======================================================================================================= */
 #ifdef INST_readValue
-/* token length as seen from the outside: a number token contains no white space, and one optional blank is skipped */
-#define TOKLEN(line, off, out) (IS_SPACE((line)[(out) - 1]) ? (out) - (off) - 1 : (out) - (off))
 #define IS_TOKCHAR(c) (IS_DIGIT(c) || (c) == '+' || (c) == '-' || (c) == '.' || (c) == 'e' || (c) == 'E')
-/* pos == line here (off == 0): the buffer STARTS at pos, which is the tightest object the function can be given (any
+/* *tl_out is the wrapper's witness for the token length T: pos[0..T) is the token, *end_out == pos[T] the character behind it.
+ * pos == line here (off == 0): the buffer STARTS at pos, which is the tightest object the function can be given (any
  * access in front of pos would be out of bounds); it also keeps the completely unwound copy loop at constant indices. */
-double w_readValue(char* line, int n, int off, int* off_out)
-__CPROVER_requires(LINE_OK(line, n, off) && off == 0 && FRESH_OUT(off_out))
-__CPROVER_requires(IS_VALUE(line[off]))                                   /* every call site checks LPFisValue(pos) first */
+double w_readValue(char* line, int n, int off, int* off_out, int* tl_out, int* end_out)
+__CPROVER_requires(LINE_OK(line, n, off) && off == 0 && HEAD4(line, off) && FRESH_OUT(off_out) && FRESH_OUT(tl_out) && FRESH_OUT(end_out))
+__CPROVER_requires(IS_VALUE(v_c0))                                        /* every call site checks LPFisValue(pos) first */
 __CPROVER_requires(GHOST_K(line, off) && g_k < g_len - off && 0 <= g_tl && g_tl <= g_len - off)
 __CPROVER_requires(g_calls == 0)
-__CPROVER_assigns(gp_line, gpp_pos, gp_arg, *off_out, g_calls, v_arg_k, v_arg_end, v_ret)
-/* pos ends inside the line and has made progress */
-__CPROVER_ensures(POS_IN_LINE(off, *off_out) && off < *off_out)
+__CPROVER_assigns(gp_line, gpp_pos, gp_arg, *off_out, *tl_out, *end_out, g_calls, v_arg_k, v_arg_end, v_ret)
+/* pos ends inside the line, behind the token and one optional blank */
+__CPROVER_ensures(1 <= *tl_out && off + *tl_out <= g_len && *end_out == line[off + *tl_out])
+__CPROVER_ensures(*off_out == off + *tl_out + (IS_SPACE(*end_out) ? 1 : 0) && *off_out <= g_len)
 /* the token consists of number characters only and is not followed by a digit */
-__CPROVER_ensures(g_k < TOKLEN(line, off, *off_out) ==> IS_TOKCHAR(v_k))
-__CPROVER_ensures(!IS_DIGIT(line[off + TOKLEN(line, off, *off_out)]))
+__CPROVER_ensures(g_k < *tl_out ==> IS_TOKCHAR(v_k))
+__CPROVER_ensures(!IS_DIGIT(*end_out))
 /* atof is called at most once; if it is, it is handed exactly the token, NUL-terminated, and its result is returned */
 __CPROVER_ensures(g_calls <= 1)
-__CPROVER_ensures((g_calls == 1 && g_tl == TOKLEN(line, off, *off_out)) ==> (v_arg_end == 0 && (g_k < g_tl ==> v_arg_k == v_k)))
+__CPROVER_ensures((g_calls == 1 && g_tl == *tl_out) ==> (v_arg_end == 0 && (g_k < g_tl ==> v_arg_k == v_k)))
 __CPROVER_ensures(g_calls == 1 ==> (__CPROVER_return_value == v_ret || (__CPROVER_return_value != __CPROVER_return_value && v_ret != v_ret)))
 /* tokens without any digit ("+", "-", ".", "-e", ...): atof is not called, the value is the sign */
-__CPROVER_ensures(g_calls == 0 ==> __CPROVER_return_value == (line[off] == '-' ? -1.0 : 1.0))
-__CPROVER_ensures((g_calls == 0 && g_k < TOKLEN(line, off, *off_out)) ==> !IS_DIGIT(v_k))
+__CPROVER_ensures(g_calls == 0 ==> __CPROVER_return_value == (v_c0 == '-' ? -1.0 : 1.0))
+__CPROVER_ensures((g_calls == 0 && g_k < *tl_out) ==> !IS_DIGIT(v_k))
 ;
-void h_readValue(void) { char* line; int n, off; int* off_out; havoc_ghosts(); w_readValue(line, n, off, off_out); CANARY(); }
+void h_readValue(void) { char* line; int n, off; int* off_out; int* tl_out; int* end_out; havoc_ghosts(); w_readValue(line, n, off, off_out, tl_out, end_out); CANARY(); }
 #endif
 
 /* ======================================================================================================= */
 #ifdef INST_readColName
-/* name length as seen from the outside: a name never contains ' ' (it is a delimiter), so a trailing ' ' is the skipped blank */
-#define NAMELEN(line, off, out) (((out) > (off) && (line)[(out) - 1] == ' ') ? (out) - (off) - 1 : (out) - (off))
-/* No precondition on *pos: the BINARIES/INTEGERS sections call LPFreadColName without checking LPFisColName(pos). */
-int w_readColName(char* line, int n, int off, int have_empty, int* off_out)
-__CPROVER_requires(LINE_OK(line, n, off) && FRESH_OUT(off_out))
+/* *tl_out is the wrapper's witness for the name length T: pos[0..T) is the name, *end_out == pos[T] the character behind it.
+ * No precondition on *pos: the BINARIES/INTEGERS sections call LPFreadColName without checking LPFisColName(pos). */
+int w_readColName(char* line, int n, int off, int have_empty, int* off_out, int* tl_out, int* end_out)
+__CPROVER_requires(LINE_OK(line, n, off) && FRESH_OUT(off_out) && FRESH_OUT(tl_out) && FRESH_OUT(end_out))
 __CPROVER_requires(GHOST_K(line, off) && 0 <= g_tl && g_tl <= g_len - off)
 __CPROVER_requires(g_calls == 0 && g_added == 0 && g_cadded == 0 && 0 <= g_num && g_num < 1000000000)
-__CPROVER_assigns(gp_line, gpp_pos, gp_arg, *off_out, g_calls, v_arg_k, v_arg_end, v_arg_0, v_nret, g_added, g_add_same, g_cadded)
-__CPROVER_ensures(POS_IN_LINE(off, *off_out))
+__CPROVER_assigns(gp_line, gpp_pos, gp_arg, *off_out, *tl_out, *end_out, g_calls, v_arg_k, v_arg_end, v_arg_0, v_nret, g_added, g_add_same, g_cadded)
+/* pos ends inside the line, behind the name and one optional blank */
+__CPROVER_ensures(0 <= *tl_out && off + *tl_out <= g_len && *end_out == line[off + *tl_out])
+__CPROVER_ensures(*off_out == off + *tl_out + (IS_SPACE(*end_out) ? 1 : 0) && *off_out <= g_len)
 /* the name is the maximal prefix free of delimiters */
-__CPROVER_ensures(g_k < NAMELEN(line, off, *off_out) ==> (!IS_NAMEDELIM(v_k) && v_k != 0))
-__CPROVER_ensures(IS_NAMEDELIM(line[off + NAMELEN(line, off, *off_out)]) || line[off + NAMELEN(line, off, *off_out)] == 0)
-__CPROVER_ensures(*off_out == off + NAMELEN(line, off, *off_out) + (IS_SPACE(line[off + NAMELEN(line, off, *off_out)]) ? 1 : 0))
+__CPROVER_ensures(g_k < *tl_out ==> (!IS_NAMEDELIM(v_k) && v_k != 0))
+__CPROVER_ensures(IS_NAMEDELIM(*end_out) || *end_out == 0)
 /* the name set is asked exactly once, for exactly that name */
 __CPROVER_ensures(g_calls == 1)
-__CPROVER_ensures(g_tl == NAMELEN(line, off, *off_out) ==> (v_arg_end == 0 && (g_k < g_tl ==> v_arg_k == v_k)))
+__CPROVER_ensures(g_tl == *tl_out ==> (v_arg_end == 0 && (g_k < g_tl ==> v_arg_k == v_k)))
 /* known name: its index; unknown name: registered (name set and column set in step) iff an empty column was supplied, else -1 */
 __CPROVER_ensures(__CPROVER_return_value == (v_nret >= 0 ? v_nret : (have_empty ? g_num : -1)))
 __CPROVER_ensures(g_added == ((v_nret < 0 && have_empty) ? 1 : 0) && g_cadded == g_added && (g_added == 1 ==> g_add_same))
 ;
-void h_readColName(void) { char* line; int n, off, have_empty; int* off_out; havoc_ghosts(); w_readColName(line, n, off, have_empty, off_out); CANARY(); }
+void h_readColName(void) { char* line; int n, off, have_empty; int* off_out; int* tl_out; int* end_out; havoc_ghosts(); w_readColName(line, n, off, have_empty, off_out, tl_out, end_out); CANARY(); }
 #endif
 
 /* ======================================================================================================= */
